@@ -1432,7 +1432,11 @@ class H2Connection:
         # RFC 7540 Section 6.5.2.
         if SettingCodes.HEADER_TABLE_SIZE in changes:
             setting = changes[SettingCodes.HEADER_TABLE_SIZE]
-            self.encoder.header_table_size = setting.new_value
+            # Only tell the encoder about real changes: re-announcing the
+            # current size makes it drop a table size update that it still
+            # owes the peer from the previous change.
+            if setting.new_value != setting.original_value:
+                self.encoder.header_table_size = setting.new_value
 
         if SettingCodes.MAX_FRAME_SIZE in changes:
             setting = changes[SettingCodes.MAX_FRAME_SIZE]
